@@ -9,7 +9,7 @@ from vlib import deckgen, layout, modelgen as MG
 from vlib.runner import Check, sha
 from vlib.probe import LibError
 
-DICT = ["1*", "0*", "-1*", "3*", "99999999*", "*5", "*", "'", "/", "//", "--", "1e308", "-1e-320", "2147483647", "-2147483648",
+DICT = ["1*", "0*", "-1*", "3*", "9999999*", "*5", "*", "'", "/", "//", "--", "1e308", "-1e-320", "2147483647", "-2147483648",
         "2147483648", "'P1'", "'*'", "'P*'", "OPEN", "SHUT", "1", "0", "-1", "1.0", "ABCDEFGHIJ", "'A B'", "INCLUDE", "ENDINC", "END",
         "TITLE", "/ /", "\t", "3*1.5", "2*'X'", "1*1*", "**", "1.5D3", "nan", "inf", "''", "ACTIONX", "ENDACTIO", "UDQ", "DEFINE", "WOPR",
         "+", "(", ")", "^", "DATES", "TSTEP", "WELSPECS", "COMPDAT", "GRID", "SCHEDULE", "DIMENS", "EQUALS", "COPY", "BOX", "ENDBOX",
@@ -121,6 +121,29 @@ class C20Token(Check):
     def known_key(self, case, viol):
         return viol.get("key")
 
+    def plain_terminates(self, files, pctx, ctx):
+        """True if the plain build answers (result, exception or crash - a crash there is a different finding, left to the
+        sanitizer run of a smaller input) within 300 s (120 s while shrinking a hang)"""
+        import os
+        from vlib import build
+        from vlib.probe import Probe, ProbeCrash
+        exe = build.ensure_probe("plain", "deck") if not os.environ.get("VERIF_NOBUILD") else \
+            os.path.join(build.BUILD, "opmprobe-plain-deck")
+        P = Probe(exe, env=self.PROBE_ENV, tmp_root=ctx.tmp_root)
+        P.timeout = 120.0 if C20Token._hang_seen else 300.0
+        try:
+            if len(files) == 1:
+                P.call("parse_build", text=files["ROOT.DATA"], ctx=pctx)
+            else:
+                P.call("parse_build", files=files, root="ROOT.DATA", ctx=pctx)
+            return True
+        except LibError:
+            return True
+        except ProbeCrash as e:
+            return "HANG" not in (e.stderr or "")
+        finally:
+            P.close()
+
     def check(self, case, ctx):
         from checks.c20 import signature
         from vlib.probe import ProbeCrash
@@ -136,6 +159,12 @@ class C20Token(Check):
             from checks.c20 import finding_key
             sig = finding_key("token", signature(e.stderr or ""))
             if sig.startswith("hang"):
+                # no reply from the sanitizer build within the bound: hang, or merely slow there (a repeat count of 10^7
+                # takes seconds in a normal build and minutes under ASan on a loaded machine)?  Ask the plain build,
+                # which has asserts on and no sanitizer, with a generous bound; only no answer there either is a hang.
+                if self.plain_terminates(files, case["ctx"], ctx):
+                    ctx.label("token:slow-under-sanitizer-not-a-hang")
+                    return None
                 C20Token._hang_seen = True
             return {"rule": "crash (sanitizer report / signal / exit) while parsing or building state from generated-and-mutated deck text",
                     "detail": {"signature": sig, "stderr": (e.stderr or "")[:3500], "files": files, "ctx": case["ctx"]}, "key": sig}
